@@ -29,8 +29,9 @@ fn main() {
             }
             let mut s = sys::Sys::new(&id, &cfg);
             for op in ops {
-                let (line, obs) = s.exec(&op);
-                writeln!(out, "{line} => {obs}").unwrap();
+                for (line, obs) in s.exec_expanded(&op) {
+                    writeln!(out, "{line} => {obs}").unwrap();
+                }
             }
         }
     } else {
@@ -58,9 +59,12 @@ fn main() {
             let len = 3 + g_len(&mut g, args.len);
             for _ in 0..len { ops.push(g.next_op()); }
             ops.push("pump".into());
+            // C02 convergence oracle: once per case, for a child under a parent that is a CA
+            if let Some(op) = g.settle_op() { ops.push(op); }
             for op in ops {
-                let (line, obs) = s.exec(&op);
-                writeln!(out, "{line} => {obs}").unwrap();
+                for (line, obs) in s.exec_expanded(&op) {
+                    writeln!(out, "{line} => {obs}").unwrap();
+                }
             }
             out.flush().unwrap();
         }
